@@ -5,6 +5,7 @@ import (
 	"errors"
 	"fmt"
 	"regexp"
+	"sort"
 	"strings"
 	"sync"
 
@@ -23,6 +24,8 @@ const (
 	unusedExpressionAttributeValuesMsg = "Value provided in ExpressionAttributeValues unused in expressions"
 	invalidExpressionAttributeName     = "ExpressionAttributeNames contains invalid key"
 	invalidExpressionAttributeValue    = "ExpressionAttributeValues contains invalid key"
+
+	undefinedExpressionAttributeNamesMsg = "An expression attribute name used in the document path is not defined"
 )
 
 var (
@@ -32,6 +35,7 @@ var (
 	ErrResourceNotFoundException   = errors.New("requested resource not found")
 	expressionAttributeNamesRegex  = regexp.MustCompile("^#[A-Za-z0-9_]+$")
 	expressionAttributeValuesRegex = regexp.MustCompile("^:[A-Za-z0-9_]+$")
+	expressionNamePlaceholderRegex = regexp.MustCompile("#[A-Za-z0-9_]+")
 )
 
 // FakeClient mocks the Dynamodb client
@@ -718,16 +722,23 @@ func validateExpressionAttributes(exprNames map[string]string, exprValues map[st
 	flattenNames := getKeysFromExpressionNames(exprNames)
 	flattenValues := getKeysFromExpressionValues(exprValues)
 
-	missingNames := getMissingSubstrs(genericExpression, flattenNames)
 	missingValues := getMissingSubstrs(genericExpression, flattenValues)
 
-	if len(missingNames) > 0 {
+	// the substring test reports a malformed key such as "#a-b" as used when it occurs verbatim
+	if missingNames := getMissingSubstrs(genericExpression, flattenNames); len(missingNames) > 0 {
 		return &smithy.GenericAPIError{Code: "ValidationException", Message: fmt.Sprintf("%s: keys: {%s}", unusedExpressionAttributeNamesMsg, strings.Join(missingNames, ", "))}
 	}
 
 	err := validateSyntaxExpression(expressionAttributeNamesRegex, flattenNames, invalidExpressionAttributeName)
 	if err != nil {
 		return err
+	}
+
+	// name placeholders are compared as whole tokens: "#n" is not used just because "#na" is
+	usedNames := getPlaceholders(expressionNamePlaceholderRegex, genericExpression)
+
+	if missingNames := getMissingKeys(usedNames, flattenNames); len(missingNames) > 0 {
+		return &smithy.GenericAPIError{Code: "ValidationException", Message: fmt.Sprintf("%s: keys: {%s}", unusedExpressionAttributeNamesMsg, strings.Join(missingNames, ", "))}
 	}
 
 	if len(missingValues) > 0 {
@@ -737,6 +748,11 @@ func validateExpressionAttributes(exprNames map[string]string, exprValues map[st
 	err = validateSyntaxExpression(expressionAttributeValuesRegex, flattenValues, invalidExpressionAttributeValue)
 	if err != nil {
 		return err
+	}
+
+	// every name placeholder an expression uses has to be supplied
+	if undefinedNames := getMissingKeys(toSet(flattenNames), keysOf(usedNames)); len(undefinedNames) > 0 {
+		return &smithy.GenericAPIError{Code: "ValidationException", Message: fmt.Sprintf("%s: keys: {%s}", undefinedExpressionAttributeNamesMsg, strings.Join(undefinedNames, ", "))}
 	}
 
 	return nil
@@ -768,6 +784,53 @@ func getKeysFromExpressionValues(m map[string]types.AttributeValue) []string {
 
 	for k := range m {
 		keys = append(keys, k)
+	}
+
+	return keys
+}
+
+// getMissingKeys returns the candidates that are not in the set, sorted
+func getMissingKeys(set map[string]bool, candidates []string) []string {
+	missing := make([]string, 0, len(candidates))
+
+	for _, candidate := range candidates {
+		if set[candidate] {
+			continue
+		}
+
+		missing = append(missing, candidate)
+	}
+
+	sort.Strings(missing)
+
+	return missing
+}
+
+func getPlaceholders(regex *regexp.Regexp, expression string) map[string]bool {
+	placeholders := map[string]bool{}
+
+	for _, placeholder := range regex.FindAllString(expression, -1) {
+		placeholders[placeholder] = true
+	}
+
+	return placeholders
+}
+
+func toSet(keys []string) map[string]bool {
+	set := map[string]bool{}
+
+	for _, key := range keys {
+		set[key] = true
+	}
+
+	return set
+}
+
+func keysOf(set map[string]bool) []string {
+	keys := make([]string, 0, len(set))
+
+	for key := range set {
+		keys = append(keys, key)
 	}
 
 	return keys
